@@ -139,12 +139,21 @@ package xsync
 //@   ispure
 //@   ensures e == ctx.errv
 
+// WaitContext is verified against an interfering environment: while it is blocked, another goroutine
+// may Fill the future (the channel becomes closed, x and the ghost value are written together) - the
+// state is havocked under that rely condition right before the select (reported as havoc/assume).
 //@ func Future.WaitContext
 //@   props C18
-//@   requires futRep(f) && (ctx.donech == nil || (chn(ctx.donech) == 0 && chpos(ctx.donech) == 0 && (chclosed(ctx.donech) ==> ctx.errv != nil)))
+//@   requires futRep(f) && (ctx.donech == nil || (chn(ctx.donech) == 0 && chpos(ctx.donech) == 0 && (chclosed(ctx.donech) ==> ctx.errv != nil))) && ctx.donech != f.c
+//@   ghostinit wasClosed := chclosed(f.c)
+//@   ghostinit x0 := f.x
+//@   after call Done[0]: havoc f.x, f.gval, chclosed(f.c)
+//@   after call Done[0]: assume futRep(f) && (wasClosed ==> chclosed(f.c) && f.x == x0)
+//@   modifies f.x, f.gval, chclosed(f.c)
 //@   ensures futRep(f)
 //@   ensures result1 == nil ==> chclosed(f.c) && result0 == f.gval
 //@   ensures result1 != nil ==> result1 == ctx.errv && result0 == zero(T) && ctx.donech != nil && chclosed(ctx.donech)
+//@   ensures old(chclosed(f.c)) ==> f.x == old(f.x) && f.gval == old(f.gval)
 
 // ---- Watchable (sequential clauses) ----
 
